@@ -7,7 +7,8 @@ PROP = 'C02'
 MODULES = ['PistacheModel.Props.C02', 'PistacheModel.Props.C02Compose']
 THEOREMS = ['Pistache.Emit.Props.' + t for t in ('request_framing', 'target_shape', 'requestBytes_eq', 'fixed_framing', 'stream_framing', 'chunked_roundtrip', 'chunked_data')] + \
            ['Pistache.Parser.' + t for t in ('requestLine_write', 'headerLine_write', 'headersLoop_write', 'qScan_pairs')] + \
-           ['Pistache.Parser.Props.' + t for t in ('parse_general', 'parse_written', 'request_roundtrip', 'request_roundtrip_fields', 'headerEffects_kinds', 'cookie_effects_noTyped', 'responseLine_write', 'response_written', 'framing_cl', 'fixed_response_roundtrip', 'fixedBytes_shape')]
+           ['Pistache.Parser.Props.' + t for t in ('parse_general', 'parse_written', 'request_roundtrip', 'request_roundtrip_fields', 'headerEffects_kinds', 'cookie_effects_noTyped', 'responseLine_write', 'response_written', 'framing_cl', 'fixed_response_roundtrip', 'fixedBytes_shape', 'parse_general_body', 'stream_response_roundtrip')] + \
+           ['Pistache.Parser.' + t for t in ('chunkSizeOf_natToHex', 'chunk_feed', 'chunked_feed')]
 
 hx = c05.hx; unhx = c05.unhx
 METHODS = ['Get', 'Post', 'Put', 'Delete', 'Patch', 'Head', 'Options', 'Trace', 'Connect']
